@@ -42,6 +42,22 @@ impl DownloadManifest {
         // Validate header
         header.validate()?;
 
+        // The entry count comes from the file: reject a count the remaining input
+        // cannot hold before reserving memory for it (an entry is at least an
+        // encoding key, a 40-bit size and a priority byte, plus optional fields).
+        let remaining = data.len().saturating_sub(cursor.position() as usize);
+        let min_entry_size = 16
+            + 5
+            + 1
+            + if header.has_checksum() { 4 } else { 0 }
+            + header.flag_size() as usize;
+        if header.entry_count() as usize > remaining / min_entry_size {
+            return Err(DownloadError::EntryCountMismatch(
+                header.entry_count(),
+                remaining / min_entry_size,
+            ));
+        }
+
         let mut entries = Vec::with_capacity(header.entry_count() as usize);
         let mut tags = Vec::with_capacity(header.tag_count() as usize);
 
